@@ -29,6 +29,8 @@
                             every entry of h = v + g but the first is ≤ 0, so replacing each cosine of the inverse DFT by 1 can
                             only lower it, and Σ h = s·wcc0
   * `cc_pts_reflect`, `cc_exact_linear`   nodes symmetric about the midpoint; the rule is exact for linear functions for every n ≥ 2
+  * `cc_rule_reflect`, `cc_exact_odd`     Σ w f(x) = Σ w f(a+b−x) for any integrand; every integrand odd about the midpoint is integrated
+                            exactly (to zero) for every n ≥ 2
   partial (DESIGN §7 C18): exactness to degree n-1 (beyond degree 1) for all n is not proved (per-n oracle in the harness).
 -/
 import MudProof.RealInst
@@ -909,6 +911,35 @@ theorem cc_exact_linear (n : ℕ) (hn : 2 ≤ n) (a b : ℝ) :
     conv_lhs => rw [hrev]
     simp only [mul_sub, Finset.sum_sub_distrib, ← Finset.sum_mul, hsum]
     ring
+  linarith
+
+
+/-- reflection of the rule: for ANY integrand, `Σ w_i f(x_i) = Σ w_i f(a + b - x_i)` -/
+theorem cc_rule_reflect (n : ℕ) (hn : 2 ≤ n) (a b : ℝ) (f : ℝ → ℝ) :
+    ∑ i : Fin n, ccWts n (ccIdft (n - 1) Real.pi (ccH (n - 1))) a b i * f (ccPts n Real.pi a b i)
+      = ∑ i : Fin n, ccWts n (ccIdft (n - 1) Real.pi (ccH (n - 1))) a b i * f (a + b - ccPts n Real.pi a b i) := by
+  set w := ccWts n (ccIdft (n - 1) Real.pi (ccH (n - 1))) a b with hw
+  set x := ccPts n Real.pi a b with hx
+  have h1 : ∑ i : Fin n, w i * f (x i) = ∑ i : Fin n, w (Fin.rev i) * f (x (Fin.rev i)) :=
+    (Equiv.sum_comp Fin.revPerm (fun i => w i * f (x i))).symm
+  rw [h1]
+  apply Finset.sum_congr rfl
+  intro i _
+  have hr : Fin.rev i = ⟨n - 1 - i.val, by have := i.isLt; omega⟩ := by
+    apply Fin.ext; simp [Fin.rev]; omega
+  rw [hr]
+  have h2 : w ⟨n - 1 - i.val, by have := i.isLt; omega⟩ = w i := (cc_wts_symmetric n hn a b i).symm
+  have h3 : x i + x ⟨n - 1 - i.val, by have := i.isLt; omega⟩ = a + b := cc_pts_reflect n hn a b i
+  rw [h2]
+  congr 2
+  linarith
+
+/-- **every integrand that is odd about the midpoint is integrated exactly (to zero), for every `n ≥ 2`** - in particular every odd
+    power of `x - (a+b)/2`: the rule's degree of exactness is odd -/
+theorem cc_exact_odd (n : ℕ) (hn : 2 ≤ n) (a b : ℝ) (f : ℝ → ℝ) (hodd : ∀ t, f (a + b - t) = -f t) :
+    ∑ i : Fin n, ccWts n (ccIdft (n - 1) Real.pi (ccH (n - 1))) a b i * f (ccPts n Real.pi a b i) = 0 := by
+  have h := cc_rule_reflect n hn a b f
+  simp only [hodd, mul_neg, Finset.sum_neg_distrib] at h
   linarith
 
 end Mud.C18
